@@ -788,10 +788,11 @@ TListing ==
   /\ stats' = [stats EXCEPT !.listings = @ + 1]
   /\ UNCHANGED <<S, cfg, calls, stm, acc, requeue, route, lrnOf, sels, lrns, nsel, selOf, bgprio, gone, clock>>
 
-\* The real code panicked.
+\* The real code panicked, or stopped making progress in the middle of a
+\* step (for instance a loop that never ends inside a critical section).
 TPanic ==
-  /\ IsEvent("panic")
-  /\ verdict' = "PANIC:scheduler-panicked"
+  /\ (IsEvent("panic") \/ IsEvent("stall"))
+  /\ verdict' = IF Line.ev = "panic" THEN "PANIC:scheduler-panicked" ELSE "PANIC:scheduler-stopped-making-progress"
   /\ UNCHANGED <<S, cfg, calls, stm, acc, requeue, route, lrnOf, sels, lrns, nsel, selOf, bgprio, gone, nonconf, stats, clock>>
 
 TNext == TListing \/ TPanic \/ TReset \/ TConfig \/ TPredeclare \/ TNoop \/ TAdvance \/ TCancel \/ TCall \/ TSend \/ TRet \/ TSec \/ TQuiescent \/ TFinal
